@@ -22,6 +22,9 @@ type C05Case struct {
 	BadCmd    string `json:"bad_cmd,omitempty"` // state malformed: the BDAT line to send (no payload)
 }
 
+// payload of the second message of the "ok" conversations
+const c05Second = "2nd\x00\r\n.\r\nQUIT\r\n\xff"
+
 type part struct {
 	b       []byte
 	payload bool
@@ -66,6 +69,15 @@ func c05Build(c C05Case) (parts []part, cfg h.Config, be *h.Backend, want []stri
 		cmd("MAIL FROM:<okmark@x>")
 		cmd("NOOP")
 		want = append(want, "250", "250")
+		// a second chunked message on the same connection: nothing of the first transfer may linger
+		g++
+		cmd("RCPT TO:<ok@b2.example>")
+		cmd(fmt.Sprintf("BDAT %d", 3))
+		pay([]byte(c05Second[:3]))
+		cmd(fmt.Sprintf("BDAT %d LAST", len(c05Second)-3))
+		pay([]byte(c05Second[3:]))
+		cmd("NOOP")
+		want = append(want, "250", "250", "250", "250")
 	case "nomail", "norcpt", "badlast", "overlimit", "overlimit2":
 		k := len(c.Msg)
 		switch c.State {
@@ -263,8 +275,11 @@ func evalC05(c C05Case) *h.Finding {
 				marks++
 			}
 		}
-		if len(data) != 1 {
-			return h.F("c05-data-calls", "%s: %d Data calls, want 1 (%s)", desc, len(data), h.Calls(o.Trace))
+		if len(data) != 2 {
+			return h.F("c05-data-calls", "%s: %d Data calls, want 2 (the message and the follow-up message) (%s)", desc, len(data), h.Calls(o.Trace))
+		}
+		if string(data[1].Body) != c05Second || data[1].ReadErr != "EOF" {
+			return h.F("c05-second-message", "%s: the follow-up message arrived as %q (%s), want %q then EOF", desc, data[1].Body, data[1].ReadErr, c05Second)
 		}
 		if !bytes.Equal(data[0].Body, c.Msg) {
 			return h.F("c05-body-differs", "%s: backend read %q, want %q", desc, data[0].Body, c.Msg)
@@ -301,7 +316,7 @@ func C05(tier string) int {
 		bytes.Repeat([]byte("a"), lim-1), bytes.Repeat([]byte("b"), lim+1), bytes.Repeat([]byte("c"), 3*lim),
 		append(bytes.Repeat([]byte{0xfe}, lim+1), '\n'), append([]byte("\n"), bytes.Repeat([]byte("d"), lim+1)...),
 	}
-	run.Rule = fmt.Sprintf("messages = all strings of <=%d octets over {CR,LF,'.',NUL,0xFF,'a'} plus %d fixed payloads (CRLF.CRLF, command look-alikes, LF-free runs of line-limit-1, +1, x3 with the line limit set to %d) x every division into <=%d chunks (empty chunks, LAST on empty or non-empty) x segmentation {command/payload in separate segments, pipelined group per segment, everything in one segment, one octet per segment} x {SMTP, LMTP, LMTP per-recipient}; refused BDAT (no MAIL, all RCPT rejected, bad LAST token, over the size limit on the first and on a later chunk) x payloads (all strings <=%d + fixed) x segmentations; malformed BDAT lines. Distinct by construction; non-trivial = payload contains CR, LF, '.', NUL, 0xFF or is longer than the line limit, or the command is refused. Oracle: one Data call whose reader yields the concatenation then EOF; exactly the expected reply per command; markers executed once; no payload octet executed.", maxLen, len(fixed), lim, maxParts, refLen)
+	run.Rule = fmt.Sprintf("messages = all strings of <=%d octets over {CR,LF,'.',NUL,0xFF,'a'} plus %d fixed payloads (CRLF.CRLF, command look-alikes, LF-free runs of line-limit-1, +1, x3 with the line limit set to %d) x every division into <=%d chunks (empty chunks, LAST on empty or non-empty) x segmentation {command/payload in separate segments, pipelined group per segment, everything in one segment, one octet per segment} x {SMTP, LMTP, LMTP per-recipient}; refused BDAT (no MAIL, all RCPT rejected, bad LAST token, over the size limit on the first and on a later chunk) x payloads (all strings <=%d + fixed) x segmentations; malformed BDAT lines. Distinct by construction; non-trivial = payload contains CR, LF, '.', NUL, 0xFF or is longer than the line limit, or the command is refused. every accepted conversation continues with a second two-chunk message. Oracle: one Data call per message whose reader yields the concatenation then EOF; exactly the expected reply per command; markers executed once; no payload octet executed.", maxLen, len(fixed), lim, maxParts, refLen)
 	run.Assumptions = []string{"payload octet classes {CR, LF, '.', NUL, 0xFF, other}", "known finding linelimit-counts-bdat-payload (DESIGN.md D6) is matched by signature AND by an independent simulation of the limiter's sub-space; any other mismatch is a violation"}
 	var cases []C05Case
 	modes := []string{"smtp", "lmtp", "lmtp-rcpt"}
